@@ -48,6 +48,18 @@ pub fn run(c: &Case, par: Option<&Rec>, rep: &mut Report) {
         (None, None) => {}
         _ => rep.violation(c, "C09/output-only-on-one-side", &format!("serial: {} / parallel: {}", vs, vp), &[]),
     }
+    // with code-transform preservation on and the offset map embedded in the output
+    match (ser.get("out_ct"), par.get("out_ct")) {
+        (Some(a), Some(b)) => {
+            rep.count("outputs-with-offset-map-compared", 1);
+            if a != b {
+                let pos = a.iter().zip(b.iter()).position(|(x, y)| x != y).unwrap_or(a.len().min(b.len()));
+                rep.violation(c, "C09/serial-vs-parallel-bytes-differ/with-code-transform", &format!("preserve_code_transform on, offset map embedded by a custom section: lengths {} / {}, first difference at {}", a.len(), b.len(), pos), &[("serial.wasm", a), ("parallel.wasm", b)]);
+            }
+        }
+        (None, None) => {}
+        _ => rep.violation(c, "C09/output-only-on-one-side/with-code-transform", &format!("serial: {:?} / parallel: {:?}", ser.str("verdict_ct"), par.str("verdict_ct")), &[]),
+    }
     // runs of the parallel build that differed from its own first run
     for (k, v) in &par.fields {
         if let Some(label) = k.strip_prefix("verdict.") {
@@ -67,7 +79,7 @@ pub fn run(c: &Case, par: Option<&Rec>, rep: &mut Report) {
     if orders > cur {
         rep.counters.insert("max_distinct_orders_for_one_input".into(), orders);
     }
-    if items >= 2 && runs >= 30 {
+    if items >= 2 && runs >= 5 {
         rep.nontrivial(c, "");
     }
     rep.sample(json!({"spec": c.spec, "functions": items, "parallel_runs": runs, "distinct_completion_orders": orders, "decision": accept(vs)}));
